@@ -199,6 +199,17 @@ def step (op : Op) (other : AGraph) (A : AGraph) : AR :=
 
 end AGraph
 
+/-- the second graph an operation reads (`find_matching_nodes`); irrelevant for every other operation -/
+def Op.other : Op → String
+  | .findMatchingNodes _ o => o
+  | _ => ""
+
+/-- the reference model over all graph ids: the addressed graph steps, every other graph stays -/
+def AGraph.stepAll (op : Op) (σ : String → AGraph) : String → AGraph :=
+  fun g => if g = op.target then (AGraph.step op (σ op.other) (σ op.target)).2 else σ g
+
+def AGraph.runAll (ops : List Op) (σ : String → AGraph) : String → AGraph := ops.foldl (fun σ o => AGraph.stepAll o σ) σ
+
 /-- outputs with the `GraphID` entry removed from returned node dictionaries (the reference model has no
     graph id inside a graph) -/
 def outAbs : Except Err Out → Except Err Out
